@@ -7,7 +7,7 @@ def is_harness_arith(f, crate):
     """an overflow / index / division check that fails in the harness crate's own source (not in /repo, not in core/std)"""
     loc = f.get("location", "")
     desc = f.get("description", "")
-    in_harness = loc.startswith("src/") and not loc.startswith("/repo")
+    in_harness = loc.startswith("src/") and not loc.startswith("/repo") and not f.get("function", "").startswith(("elf::", "<elf::"))
     arith = desc.startswith("attempt to ") or "index out of bounds" in desc or "out of range for slice" in desc
     unwind = f.get("category") == "unwind" or desc.startswith("unwinding assertion")   # a loop of the harness itself needs a larger bound
     return in_harness and (arith or unwind)
@@ -88,10 +88,12 @@ def run(prop, gi, g, tier, known, do_replay):
         elif hr.status == "Failure":
             unlisted = []
             harness_bugs = [f for f in hr.failed if is_harness_arith(f, g["crate"])]
-            if harness_bugs:
+            genuine = [f for f in hr.failed if not is_harness_arith(f, g["crate"])]
+            if harness_bugs and not genuine:
                 out["inconclusive"].append(f"harness {hid}: arithmetic/index/unwinding failure inside the harness code itself ({harness_bugs[0]['description']} at {harness_bugs[0]['location']}): harness bug, not a finding")
                 continue
-            for f in hr.failed:
+            # failures of the harness's own arithmetic never count; property assertions and checks inside the crate do (after replay)
+            for f in genuine:
                 k = known_match(known, prop, hid, f)
                 if k is not None:
                     out["known"].append(f"harness={hid} {k}")
